@@ -359,6 +359,24 @@ def _cfg_keys(e: ast.AST, var: str) -> Set[str]:
     return out
 
 
+def _expand_deep(ld: LocalDefs, e: ast.AST, depth: int = 4) -> ast.AST:
+    """The expression with every single-assignment local replaced by its definition, transitively (a value computed in two or three
+    named steps before the call is the same value as the one written inside the call)."""
+    import copy as _copy
+    if depth <= 0:
+        return e
+
+    class R(ast.NodeTransformer):
+        def visit_Name(self, node):
+            if isinstance(node.ctx, ast.Load):
+                d = ld.single(node.id)
+                if d is not None and d[0] is not None and d[1] is None:
+                    return _expand_deep(ld, _copy.deepcopy(d[0]), depth - 1)
+            return node
+
+    return R().visit(_copy.deepcopy(e))
+
+
 def r20_5(ctx: Ctx) -> None:
     """Sibling loader blocks (the router ACL, the wireless router ACL, the six firewall lists; the connect calls of one
     node-set adder) are copies of one another: each must map the same declared key to the same constructor argument."""
@@ -380,7 +398,8 @@ def r20_5(ctx: Ctx) -> None:
         raise AnalysisError(f"R20.5: expected the 8 ACL loader blocks (router, wireless router, 6 firewall lists), found {len(sites)}")
     maps = []
     for fn, loop, kvar, vvar, c in sites:
-        m = {k.arg: frozenset(_cfg_keys(k.value, vvar)) for k in c.keywords if k.arg}
+        ld_ = LocalDefs(fn.node)
+        m = {k.arg: frozenset(_cfg_keys(_expand_deep(ld_, k.value), vvar)) for k in c.keywords if k.arg}
         maps.append(m)
     # reference: per keyword the key set most sites use (confirmed by reading: kw == key except src_ip/dst_ip)
     ref: Dict[str, frozenset] = {}
